@@ -326,6 +326,23 @@ class LoadEngine(object):
                         used.add((x, y, p))
             if not tg:
                 continue
+            kept = getattr(self, "kept_targets", None)
+            if kept is not None and b == 0 and t.draw(3) == 0:
+                # the caller edits the very dictionary (and core sets) it
+                # passed to an earlier load and passes it again
+                w.probe("target_dict_reused")
+                for xy in list(kept):
+                    if xy not in tg:
+                        del kept[xy]
+                for xy, ps in tg.items():
+                    if xy in kept:
+                        kept[xy].clear()
+                        kept[xy].update(ps)
+                    else:
+                        kept[xy] = ps
+                tg = kept
+            if b == 0:
+                self.kept_targets = tg
             self.files[name] = data
             binaries[name] = data
             app_map[name] = tg
